@@ -56,10 +56,6 @@ Definition id_ok (T : table) (id : string) (s : setting) : bool :=
 Definition n_carrying (name : string) : nat := List.length (filter (fun s => carries s name) all_settings).
 Definition name_unique (name : string) : bool := Nat.eqb (n_carrying name) 1.
 
-Definition number_route_ok (T : table) (s : setting) : bool := id_ok T (py_str_of_Z (sg_number s)) s.
-Definition name_route_ok (T : table) (s : setting) : bool :=
-  (negb (name_unique (sg_short s)) || id_ok T (sg_short s) s) && (negb (name_unique (sg_pdb s)) || id_ok T (sg_pdb s) s).
-
 (* the normalised symbols, computed once *)
 Definition norms := Eval vm_compute in map (fun s => (norm_id (sg_short s), norm_id (sg_pdb s))) all_settings.
 Lemma norms_eq : norms = map (fun s => (norm_id (sg_short s), norm_id (sg_pdb s))) all_settings.
@@ -73,18 +69,12 @@ Proof. unfold n_carrying, n_carrying_fast. rewrite norms_eq, filter_map_len. ref
 Definition name_unique_fast (name : string) : bool := Nat.eqb (n_carrying_fast name) 1.
 Lemma name_unique_fast_eq name : name_unique name = name_unique_fast name.
 Proof. unfold name_unique, name_unique_fast. rewrite n_carrying_fast_eq. reflexivity. Qed.
-Definition name_route_ok_fast (T : table) (s : setting) : bool :=
-  (negb (name_unique_fast (sg_short s)) || id_ok T (sg_short s) s) && (negb (name_unique_fast (sg_pdb s)) || id_ok T (sg_pdb s) s).
-
-Lemma number_route_b : forallb (number_route_ok Tb_fast) all_settings = true.
+Lemma number_route_b : forallb (fun s => id_ok Tb_fast (py_str_of_Z (sg_number s)) s) all_settings = true.
 Proof. vm_compute. reflexivity. Qed.
-Lemma name_route_fast_b : forallb (name_route_ok_fast Tb_fast) all_settings = true.
+Lemma name_route_fast_b :
+  forallb (fun s => (negb (name_unique_fast (sg_short s)) || id_ok Tb_fast (sg_short s) s) &&
+                    (negb (name_unique_fast (sg_pdb s)) || id_ok Tb_fast (sg_pdb s) s)) all_settings = true.
 Proof. vm_compute. reflexivity. Qed.
-Lemma name_route_b : forallb (name_route_ok Tb_fast) all_settings = true.
-Proof.
-  rewrite <- name_route_fast_b. induction all_settings as [|s l IH]; [reflexivity|]. cbn [forallb]. rewrite IH. f_equal.
-  unfold name_route_ok, name_route_ok_fast. rewrite !name_unique_fast_eq. reflexivity.
-Qed.
 (* how many settings can be addressed by a symbol of their own *)
 Lemma unique_names_count :
   (400 <=? List.length (filter (fun s => name_unique (sg_short s)) all_settings))%nat = true /\
@@ -93,6 +83,20 @@ Proof.
   assert (H : forall f, filter (fun s => name_unique (f s)) all_settings = filter (fun s => name_unique_fast (f s)) all_settings)
     by (intros f; apply filter_ext; intros s; apply name_unique_fast_eq).
   rewrite !H. split; vm_compute; reflexivity.
+Qed.
+
+(* eliminations stated once, so that later proofs never ask the kernel to compare terms containing the big table *)
+Lemma number_route_elim s : In s all_settings -> id_ok Tb_fast (py_str_of_Z (sg_number s)) s = true.
+Proof. intros Hs. pose proof number_route_b as H. rewrite forallb_forall in H. exact (H s Hs). Qed.
+Lemma orb_negb_elim (b x : bool) : b = true -> negb b || x = true -> x = true.
+Proof. intros -> H. exact H. Qed.
+Lemma name_route_elim s : In s all_settings ->
+  (name_unique (sg_short s) = true -> id_ok Tb_fast (sg_short s) s = true) /\
+  (name_unique (sg_pdb s) = true -> id_ok Tb_fast (sg_pdb s) s = true).
+Proof.
+  intros Hs. pose proof name_route_fast_b as H. rewrite forallb_forall in H. specialize (H s Hs). cbv beta in H.
+  apply andb_true_iff in H as [H1 H2].
+  split; intros Hu; rewrite name_unique_fast_eq in Hu; [exact (orb_negb_elim _ _ Hu H1) | exact (orb_negb_elim _ _ Hu H2)].
 Qed.
 
 Lemma id_route T b id s : op_texts b = [] -> sg_identifier b = id -> id <> EmptyString -> id_ok T id s = true ->
@@ -112,7 +116,7 @@ Theorem number_route b s find : In s all_settings -> op_texts b = [] -> sg_ident
   exists s', resolve_sg find Tb_fast b = Ok (FromId s', sg_ops s) /\ sg_number s' = sg_number s.
 Proof.
   intros Hs Hops Hid. apply (id_route Tb_fast b _ s Hops Hid (str_Z_nonempty _)).
-  pose proof number_route_b as H. rewrite forallb_forall in H. specialize (H s Hs). unfold number_route_ok in H. exact H.
+  exact (number_route_elim s Hs).
 Qed.
 
 Theorem name_route b s find name : In s all_settings -> (name = sg_short s \/ name = sg_pdb s) -> name_unique name = true ->
@@ -120,10 +124,7 @@ Theorem name_route b s find name : In s all_settings -> (name = sg_short s \/ na
   exists s', resolve_sg find Tb_fast b = Ok (FromId s', sg_ops s) /\ sg_number s' = sg_number s.
 Proof.
   intros Hs Hn Hu Hne Hops Hid. apply (id_route Tb_fast b name s Hops Hid Hne).
-  pose proof name_route_b as H. rewrite forallb_forall in H. specialize (H s Hs). unfold name_route_ok in H.
-  apply andb_true_iff in H as [H1 H2]. destruct Hn as [->| ->].
-  - rewrite Hu in H1. cbn [negb orb] in H1. exact H1.
-  - rewrite Hu in H2. cbn [negb orb] in H2. exact H2.
+  destruct (name_route_elim s Hs) as [H1 H2]. destruct Hn as [->| ->]; [exact (H1 Hu) | exact (H2 Hu)].
 Qed.
 
 (* ---------- the reader does not care which way the group was named ---------- *)
@@ -173,12 +174,12 @@ Proof.
   destruct H as [A [B [Cc Dd]]]. repeat split; try assumption.
   - rewrite B. unfold read_cif, read_typed in E1. rewrite R1 in E1.
     destruct (cell_numbers E (b_cell b_ops)); [|discriminate]. cbn [bind] in E1.
-    destruct (read_site_loop E (type_loop E (b_site b_ops))); [|discriminate]. cbn [bind] in E1.
-    destruct (read_aniso_loop E p (option_map (type_loop E) (b_aniso b_ops))); [|discriminate]. cbn [bind] in E1.
+    destruct (read_site_loop E (type_loop E (b_site b_ops))) as [st0|]; [|discriminate]. cbn [bind] in E1.
+    destruct (read_aniso_loop E st0 (option_map (type_loop E) (b_aniso b_ops))); [|discriminate]. cbn [bind] in E1.
     injection E1 as E1. subst r. reflexivity.
   - unfold read_cif, read_typed in E1. rewrite R1 in E1.
     destruct (cell_numbers E (b_cell b_ops)); [|discriminate]. cbn [bind] in E1.
-    destruct (read_site_loop E (type_loop E (b_site b_ops))); [|discriminate]. cbn [bind] in E1.
-    destruct (read_aniso_loop E p (option_map (type_loop E) (b_aniso b_ops))); [|discriminate]. cbn [bind] in E1.
+    destruct (read_site_loop E (type_loop E (b_site b_ops))) as [st0|]; [|discriminate]. cbn [bind] in E1.
+    destruct (read_aniso_loop E st0 (option_map (type_loop E) (b_aniso b_ops))); [|discriminate]. cbn [bind] in E1.
     injection E1 as E1. subst r. reflexivity.
 Qed.
